@@ -366,5 +366,27 @@ func TestVerifC06(t *testing.T) {
 		MaxDepth: env.Pick(5, 6), ShallowDepth: env.Pick(2, 3),
 		Run: func(h []int) verifx.SearchResult { return c06Run(t, msgs, h, true) },
 	})
+	// The same histories with every params object spelled differently - the member name _meta and the
+	// reverse-DNS keys inside it written with JSON escapes (\u005f, \/), insignificant white space: the
+	// same JSON values, so the same reference answers.
+	spelled := make([]c06Msg, len(msgs))
+	for i, m := range msgs {
+		m.params = c06Respell(m.params)
+		spelled[i] = m
+	}
+	env.RunSearch(res, &verifx.Search{
+		Name: "wire-history-search/json-spellings", NumOps: len(spelled), OpName: func(i int) string { return spelled[i].name },
+		MaxDepth: env.Pick(4, 6), ShallowDepth: env.Pick(2, 3),
+		Run: func(h []int) verifx.SearchResult { return c06Run(t, spelled, h, false) },
+	})
 	env.Finish(res)
+}
+
+// c06Respell rewrites a JSON text into another spelling of the same value.
+func c06Respell(params string) string {
+	if params == "" {
+		return params
+	}
+	r := strings.NewReplacer(`"_meta"`, `"\u005fmeta"`, `io.modelcontextprotocol/`, `io.modelcontextprotocol\/`, `":`, `" : `, `,"`, ` , "`)
+	return " " + r.Replace(params) + " "
 }
